@@ -61,6 +61,33 @@ var codePads = func() []string {
 	return out
 }()
 
+// codeSeparators: bytes that a table kept as one delimited string might use
+var codeSeparators = []string{"", ",", ";", "|", "/", ":", ".", " ", "-", "_", "+", "&", "=", "\t", "\n", "\x00", ", ", "\"", "'"}
+
+func joinedCodes(en *lib.Enum) []string {
+	var codes []string
+	for _, c := range en.Codes {
+		codes = append(codes, c.Code)
+	}
+	var out []string
+	for _, sep := range codeSeparators {
+		for _, a := range codes {
+			if sep != "" {
+				out = append(out, sep+a, a+sep, sep+a+sep, en.Name+sep+a, a+sep+en.Name)
+			}
+			for _, b := range codes {
+				out = append(out, a+sep+b)
+				for _, c := range codes {
+					out = append(out, a+sep+b+sep+c)
+				}
+			}
+		}
+		// the whole table in specification order and reversed
+		out = append(out, strings.Join(codes, sep))
+	}
+	return out
+}
+
 func tableCase(en *lib.Enum, what string, arg any) map[string]any {
 	return map[string]any{"cvss": en.Ver, "metric": en.Name, "what": what, "argument": arg}
 }
@@ -118,6 +145,19 @@ func init() {
 								r.Violate(ev.Violation{Kind: "non-code-accepted", Case: tableCase(en, "Get", fmt.Sprintf("%q", sdec)), Observed: fmt.Sprintf("%d (prints %q)", got, en.Str(got)), Expected: "the unknown/invalid value"})
 							}
 						}
+					}
+				}
+				// every sequence of 2 or 3 codes of this metric (all orders, repetitions included)
+				// joined by every separator of a punctuation alphabet (and by nothing), every
+				// code with a separator in front or behind, and "name<sep>code": a list-based or
+				// substring-based lookup accepts some of them (round 4, C20-A-r4)
+				for _, sdec := range joinedCodes(en) {
+					if en.Has(sdec) {
+						continue
+					}
+					evals++
+					if got := en.Parse(sdec); got != en.Unknown {
+						r.Violate(ev.Violation{Kind: "non-code-accepted", Case: tableCase(en, "Get", fmt.Sprintf("%q", sdec)), Observed: fmt.Sprintf("%d (prints %q)", got, en.Str(got)), Expected: "the unknown/invalid value"})
 					}
 				}
 				// a code followed by filler of a length around every multiple of 256 up to 1024, and 2^16
@@ -192,7 +232,7 @@ func init() {
 		r.Set("metrics", int64(len(lib.Enums3)+len(lib.Enums2)))
 		r.Set("non_code_strings_per_metric", int64(len(others)))
 		r.Set("exhaustive", true)
-		r.Set("rule", "36 metrics + 2 version parsers x (every specification code; every string of length <=3 over A-Z0-9, every code padded with 1-3 bytes of NUL/blank/tab/newline/0xFF in front, behind or both, and a few other shapes as non-codes; every enumeration integer in [-2, max+2] and +-2^31): Get(code).String()==code and equals the constant the library names for that code, distinct codes give distinct values, every other string gives the unknown/invalid constant, which prints empty and on which IsUnknown/IsValid answers differently than on every defined value; Value(...) equals the specification weight for every value, both scopes for PR/MPR (all MS x S x PR contexts) and every base value for a Not Defined Modified metric; distinct by (metric, argument)")
+		r.Set("rule", "36 metrics + 2 version parsers x (every specification code; every string of length <=3 over A-Z0-9, every code padded with 1-3 bytes of NUL/blank/tab/newline/0xFF in front, behind or both, every sequence of 2-3 codes of the metric joined by each of 19 separators, and a few other shapes as non-codes; every enumeration integer in [-2, max+2] and +-2^31): Get(code).String()==code and equals the constant the library names for that code, distinct codes give distinct values, every other string gives the unknown/invalid constant, which prints empty and on which IsUnknown/IsValid answers differently than on every defined value; Value(...) equals the specification weight for every value, both scopes for PR/MPR (all MS x S x PR contexts) and every base value for a Not Defined Modified metric; distinct by (metric, argument)")
 		r.Assume("weights compared as float64 parsed from the specification's decimal strings (the library's tables are float literals of the same decimals)")
 	})
 }
